@@ -30,3 +30,4 @@ run "a repeat followed by a term that can mat" C01 C08
 run "reluctant repeat of a variable-length te" C06 C01
 run "a fixed-length loop over a term of lengt" C05
 run "a greedy repeat with a huge minimum iter" C06 C05
+run "a repeat that had offered zero iteration" C01 C02 C08 C20
